@@ -60,7 +60,7 @@ def main():
          "engines": [{"name": "tlc+tvh", "path": "/verif/check", "serves_properties": sorted(claimed),
                       "kind_free_text": "TLA+ specifications in /verif/spec checked by TLC (tla2tools 1.8.0); Rust conformance harness /verif/harness (tvh, tvm) replays TLC-generated behaviours into triomphe, extracts the count protocol from the running code, and records allocator/destructor observations"}],
          "checks": checks, "not_applicable": na,
-         "notes": "see DESIGN.md; known findings in known_findings.json"}
+         "notes": "see DESIGN.md; known findings in known_findings.json; genuine defects repaired in /repo by fix: commits 35f1c33 (C14, ordering of HeaderSlice<HeaderWithLength<H>, T>) and 940451e (C07, OffsetArc::make_mut write-back on unwind)"}
     json.dump(m, open(os.path.join(os.path.dirname(__file__), "..", "MANIFEST.json"), "w"), indent=1)
     print("claimed:", sorted(claimed), "not claimed:", [x["property_id"] for x in na])
 
